@@ -1,11 +1,13 @@
 /-
-  C08 — translation tie for clip/helpers.go `Bound` (box intersection) and for the two helpers
-  of clip/clip.go that `ring()` is built from (`bitCode`, `intersect`).
+  C08 — translation tie for clip/helpers.go `Bound` (box intersection), `MultiPoint`, `Ring`, `Polygon`,
+  `MultiPolygon` (the loops around the opaque `ring()`), and for the two helpers of clip/clip.go that
+  `ring()` is built from (`bitCode`, `intersect`).
   `Generated/ClipGo.lean` is REGENERATED from /repo on every run by
   harness/cmd/factgen/translate_float.go.
 -/
 import Orb.Clip
 import Generated.ClipGo
+import Orb.LoopForms
 
 namespace Orb.C08Tie
 open Orb Orb.Core
@@ -29,5 +31,83 @@ theorem ring_inside_tie (box : Bound α) (p : Pt α) (edge : Nat) :
 /-- the intersection point `ring()` appends -/
 theorem ring_intersect_tie (box : Bound α) (edge : Nat) (a b : Pt α) :
     Generated.ClipGo.intersect box edge a b = Clip.intersect box edge a b := rfl
+
+/-! ### clip/helpers.go: MultiPoint, Ring, Polygon, MultiPolygon
+
+`MultiPoint`: `for _, p := range mp { if b.Contains(p) { result = append(result, p) } }` is a `List.foldl`
+that `Orb.LoopForms.foldl_filter` turns into the model's `List.filter`.
+
+`Ring`, `Polygon`, `MultiPolygon` are translated with the Sutherland–Hodgman pass `ring(box, in)` left
+opaque (the explicit function parameter `ring`); a nil slice is the empty list, and the tests `r == nil`,
+`p != nil` are translated (as `isEmpty`) only because the translator has checked that these values are
+nil exactly when they are empty.  The model's `Clip.ring` answers `Option` (`none` = `panic("no edge??")`);
+the ties hold for every `ringF` that `Clip.ring box` is `some ∘ ringF box`. -/
+
+open Orb.LoopForms
+
+theorem clipMultiPoint_tie (b : Bound α) (mp : List (Pt α)) :
+    Generated.ClipGo.clipMultiPoint b mp = Clip.multiPoint b mp := by
+  show List.foldl _ [] mp = _
+  rw [foldl_filter (fun p => Generated.BoundGo.boundContains b p) mp []]
+  rfl
+
+/-- `clip.Ring` only turns an empty result into nil (the same list) -/
+theorem clipRing_tie (ringF : Bound α → List (Pt α) → List (Pt α)) (b : Bound α) (r : List (Pt α)) :
+    Generated.ClipGo.clipRing ringF b r = ringF b r := by
+  unfold Generated.ClipGo.clipRing
+  cases ringF b r with
+  | nil => rfl
+  | cons x t => rfl
+
+theorem clipRing_fn (ringF : Bound α → List (Pt α) → List (Pt α)) : Generated.ClipGo.clipRing ringF = ringF := by
+  funext b r; exact clipRing_tie ringF b r
+
+/-- the loops `for … { x := F(…); if x != nil { result = append(result, x) } }` of `Polygon` and
+    `MultiPolygon`, against a fold over `Option` whose step `g` keeps `some` and appends the non-empty results -/
+theorem clipLoop_eq {β γ : Type} (g : Option (List (List γ)) → β → Option (List (List γ))) (f : β → List γ)
+    (hg : ∀ res x, g (some res) x = some (if !(f x).isEmpty then res ++ [f x] else res))
+    (xs : List β) (acc : List (List γ)) :
+    xs.foldl g (some acc)
+      = some (List.foldl (fun (result : List (List γ)) (x : β) =>
+          let r : List γ := f x
+          if !r.isEmpty then result ++ [r] else result) acc xs) := by
+  induction xs generalizing acc with
+  | nil => rfl
+  | cons x t ih =>
+    simp only [List.foldl_cons, hg]
+    exact ih _
+
+/-- `clip.Polygon` -/
+theorem clipPolygon_tie (ringF : Bound α → List (Pt α) → List (Pt α)) (box : Bound α)
+    (hr : ∀ r, Clip.ring box r = some (ringF box r)) (p : List (List (Pt α))) :
+    Clip.polygon box p = some (Generated.ClipGo.clipPolygon ringF box p) := by
+  cases p with
+  | nil => rfl
+  | cons outer holes =>
+    unfold Generated.ClipGo.clipPolygon Clip.polygon
+    rw [clipRing_fn]
+    simp only [List.length_cons, Nat.succ_ne_zero, ↓reduceIte, List.getD_cons_zero, List.drop_one, List.tail_cons]
+    rw [hr outer]
+    cases ringF box outer with
+    | nil => rfl
+    | cons x u =>
+      simp only [List.isEmpty_cons, Bool.false_eq_true, ↓reduceIte]
+      refine clipLoop_eq _ (ringF box) (fun res h => ?_) holes _
+      simp only [hr h]
+      cases ringF box h <;> rfl
+
+/-- `clip.MultiPolygon` -/
+theorem clipMultiPolygon_tie (ringF : Bound α → List (Pt α) → List (Pt α)) (box : Bound α)
+    (hr : ∀ r, Clip.ring box r = some (ringF box r)) (mp : List (List (List (Pt α)))) :
+    Clip.multiPolygon box mp = some (Generated.ClipGo.clipMultiPolygon ringF box mp) := by
+  unfold Clip.multiPolygon Generated.ClipGo.clipMultiPolygon
+  refine clipLoop_eq _ (Generated.ClipGo.clipPolygon ringF box) (fun res pg => ?_) mp []
+  simp only [clipPolygon_tie ringF box hr pg]
+  cases Generated.ClipGo.clipPolygon ringF box pg <;> rfl
+
+theorem clip_helpers_translated :
+    "clipMultiPoint" ∈ Generated.ClipGo.translated ∧ "clipRing" ∈ Generated.ClipGo.translated ∧
+    "clipPolygon" ∈ Generated.ClipGo.translated ∧ "clipMultiPolygon" ∈ Generated.ClipGo.translated := by
+  decide
 
 end Orb.C08Tie
